@@ -440,7 +440,7 @@ def extract_fn(kv, payload, notes, falsify=None):
     for kind, arg, text in secs:
         if kind == "spec":
             spec = text
-            if falsify == kv["name"]:
+            if falsify in (kv["name"], "%s::%s" % (kv.get("for") or kv.get("impl") or "", kv["name"])):
                 # must-fail twin (vacuity guard): same function, same precondition, postcondition `false`
                 if re.search(r"\bensures\b", spec):
                     spec = re.sub(r"\bensures\b", "ensures false,", spec, count=1)
